@@ -63,6 +63,7 @@ func fk(t, f string) engine.FieldKey {
 // resolveFieldAnchors fills resolvedFields for the program of this check and refreshes the package-level keys.
 func resolveFieldAnchors(c *Check) {
 	resolvedFields = map[[2]string]string{}
+	calleeResolver = func(s ssa.CallInstruction) []*ssa.Function { return c.G.Callees[s] }
 	for k, hint := range fieldTypeHints {
 		st := structByKey(c, k[0])
 		if st == nil || hasField(st, k[1]) {
